@@ -241,6 +241,28 @@ func c19API(c *Ctx) {
 		}
 	}
 
+	// one rule selected for two methods that share their short name in different services: the second
+	// registration is a conflict (never silently dropped)
+	{
+		rule := getRule("/c19/dup/{name}")
+		rule.Selector = "verif.v1.*"
+		fixtureDeferRegistration = true
+		fx, err := NewFixture([]*MethodSpec{{Service: "SvcA", Name: "Check", In: "Req", Out: "Reply", Unary: echo}, {Service: "SvcB", Name: "Check", In: "Req", Out: "Reply", Unary: echo}},
+			&serviceconfig.Service{Http: &annotations.Http{Rules: []*annotations.HttpRule{rule}}})
+		fixtureDeferRegistration = false
+		if err == nil {
+			e1, p1 := fx.RegisterOne("SvcA")
+			e2, p2 := fx.RegisterOne("SvcB")
+			in := "selector verif.v1.* with GET /c19/dup/{name}; services SvcA and SvcB both have a method Check"
+			c.Eval("api-selector", in, true)
+			if e1 != nil || p1 != nil || p2 != nil {
+				c.SpecFail("api-selector", in, fmt.Sprint(e1, p1, p2), "SvcA registers, SvcB is refused", "C19/api/selector-registration", "")
+			} else if e2 == nil {
+				c.SpecFail("api-selector", in, "the second registration was accepted", "a duplicate-rule error (the rule cannot be bound to both methods)", "C19/api/selected-method-silently-unbound", "a rule whose selector covers a method is neither bound to it nor refused")
+			}
+		}
+	}
+
 	// a config rule that restates an annotated method's primary pattern and extends it
 	{
 		ann := getRule("/c19/w")
@@ -372,6 +394,44 @@ func c19API(c *Ctx) {
 			conn.Close()
 			if first != "SERVING" || second != "NOT_SERVING" {
 				c.SpecFail("api-healthz", in, first+" then "+second, "SERVING then NOT_SERVING", "C19/healthz/websocket-watch", "the WebSocket binding of /v1/healthz does not report the statuses set on the health server as they change")
+			}
+		}
+		srv.Close()
+	}
+	// … and for the service the URL names
+	{
+		hs.SetServingStatus("", healthpb.HealthCheckResponse_SERVING)
+		hs.SetServingStatus("my.Service", healthpb.HealthCheckResponse_NOT_SERVING)
+		srv := httptest.NewServer(mux)
+		for _, q := range []struct{ query, want string }{{"?service=my.Service", "NOT_SERVING"}, {"?service=nobody", "SERVICE_UNKNOWN"}, {"", "SERVING"}} {
+			ctx, cancel := context.WithTimeout(context.Background(), 3*time.Second)
+			conn, br, _, err := gws.Dial(ctx, "ws"+strings.TrimPrefix(srv.URL, "http")+"/v1/healthz"+q.query)
+			cancel()
+			in := "websocket /v1/healthz" + q.query
+			c.Eval("api-healthz", in, true)
+			if err != nil {
+				c.SpecFail("api-healthz", in, err.Error(), "a websocket", "C19/healthz/websocket", "")
+				continue
+			}
+			conn.SetDeadline(time.Now().Add(3 * time.Second))
+			var rw io.ReadWriter = conn
+			if br != nil {
+				rw = struct {
+					io.Reader
+					io.Writer
+				}{br, conn}
+			}
+			wsutil.WriteClientMessage(conn, gws.OpText, []byte("{}")) //nolint
+			first := "error"
+			if b, _, err := wsutil.ReadServerData(rw); err == nil {
+				var resp healthpb.HealthCheckResponse
+				if protojson.Unmarshal(b, &resp) == nil {
+					first = resp.Status.String()
+				}
+			}
+			conn.Close()
+			if first != q.want {
+				c.SpecFail("api-healthz", in, first, q.want, "C19/healthz/websocket-service", "the WebSocket binding of /v1/healthz does not report the status of the service named in the URL")
 			}
 		}
 		srv.Close()
